@@ -14,6 +14,7 @@ C09 - rendering keeps the text.  Claimed for ONE clause only: docstring fields a
   R09.12 the piece taken after a delimiter is the whole remainder (split(d, k)[k], never split(d)[k])
   R09.13 a width cut from the front of every line of a block is computed over all of its lines
   R09.17 the title docutils promotes to document title (a lone top-level section) is still rendered in the body
+  R09.18 the translator does not spell a character of the text as an entity the XML re-parse rejects (U+00A0 -> &nbsp;)
   R09.16 a field handler that keeps ONE text per entry reports a second field for the same entry before it overwrites the first
   R09.15 verbatim epytext tokens (literal and doctest blocks) are cut from their lines by one line-independent width
   R09.14 a consolidated-field handler turns every child of a list item into field content (whole copy, or indexes covered by a validated length)
@@ -602,6 +603,7 @@ def run(repo: Repo, chk: Check, thorough: bool = False) -> None:
 
     check_r09_16(repo, chk)
     check_r09_17(repo, chk)
+    check_r09_18(repo, chk)
     # ------------------------------------------------------------------ R09.7
     # a reST directive that declares a body (has_content = True) consumes it whatever its arguments are: every normal path through
     # run() passes through a statement that reads self.content
@@ -717,7 +719,44 @@ def check_r09_16(repo: Repo, chk: Check) -> None:
                    'the first disappears without any message', repo.loc(f.mod, a))
     if n < 4:
         raise AnalysisError(f'R09.16: {n} single-slot stores found in the field handlers (5 confirmed: return, returntype, yield, yieldtype, type)')
-    chk.require('R09.16', 4)
+    # the sibling for module / class docstrings: extract_fields() hands the body of an @ivar / @cvar / @var / @type field to the attribute it names -
+    # one text per attribute, so a second field for the same name has to be reported before it replaces the first
+    ef = repo.funcs.get('pydoctor.epydoc2stan.extract_fields')
+    if ef is None:
+        raise AnalysisError('R09.16: epydoc2stan.extract_fields not found')
+    cfe = CFG(ef)
+    loopv = {lp.target.id for lp in ef.walk() if isinstance(lp, ast.For) and isinstance(lp.target, ast.Name) and 'fields' in norm(lp.iter)}
+    stores_e = [a for a in ef.walk() if isinstance(a, ast.Assign) and len(a.targets) == 1 and isinstance(a.targets[0], ast.Attribute) and
+                isinstance(a.targets[0].value, ast.Name) and isinstance(a.value, ast.Call) and call_name(a.value) == 'body' and
+                isinstance(a.value.func, ast.Attribute) and isinstance(a.value.func.value, ast.Name) and a.value.func.value.id in loopv]
+    if len(stores_e) < 2:
+        raise AnalysisError(f'R09.16: {len(stores_e)} stores of a field body into an attribute found in extract_fields (2 confirmed: parsed_docstring, parsed_type)')
+    # which tags reach which store, and which of them FieldHandler leaves to extract_fields (`handle_ivar = handled_elsewhere`): a duplicated `@type x`
+    # is reported by FieldHandler.handle_type when the docstring is rendered, a duplicated `@ivar x` by nobody else
+    routed = [const_str(e) for cmp_ in ef.walk() if isinstance(cmp_, ast.Compare) and isinstance(cmp_.ops[0], ast.In) and isinstance(cmp_.comparators[0], (ast.List, ast.Tuple, ast.Set))
+              for e in cmp_.comparators[0].elts if const_str(e)]
+    elsewhere = {k[len('handle_'):] for k, v in fh.aliases.items() if k.startswith('handle_') and isinstance(v, ast.Name) and v.id == 'handled_elsewhere'}
+    if not routed or not elsewhere:
+        raise AnalysisError('R09.16: the tags extract_fields routes / the handlers FieldHandler declares as handled elsewhere were not found')
+    for a in stores_e:
+        eqs = [(const_str(t.comparators[0]), pol) for t, pol in cfe.dominating_tests(a) if isinstance(t, ast.Compare) and len(t.ops) == 1 and
+               isinstance(t.ops[0], ast.Eq) and const_str(t.comparators[0]) in routed]
+        tags_here = {v for v, pol in eqs if pol} or (set(routed) - {v for v, pol in eqs if not pol})
+        if not (tags_here & elsewhere):
+            chk.ob('R09.16', f'{ef.qn} :: a second `@{"/".join(sorted(tags_here))}` field for the same name is reported', True,
+                   f'FieldHandler.handle_{sorted(tags_here)[0]} reports the duplicate when the docstring is rendered', repo.loc(ef.mod, a), kind='reasoned-exception')
+            continue
+        n += 1
+        attr = a.targets[0].attr  # type: ignore[attr-defined]
+        reports = [i for i in ef.walk() if isinstance(i, ast.If) and cfe.before(i, a) and
+                   any(isinstance(x, ast.Attribute) and x.attr == attr for x in ast.walk(i.test)) and
+                   any(isinstance(c, ast.Call) and call_name(c) == 'report' for st in i.body for c in ast.walk(st))]
+        ok = bool(reports)
+        chk.ob('R09.16', f'{ef.qn} :: a second field for the `{attr}` of an attribute is reported before it replaces the first', ok,
+               f'`if {norm(reports[0].test)[:50]}: ...report(...)` precedes the store' if ok else
+               f'`{norm(a)[:60]}` overwrites what an earlier field for the same name put there: of two `@ivar x:` (or `@type x:`) fields in a class or module docstring only the '
+               'last text is shown, the first appears nowhere and nothing is reported', repo.loc(ef.mod, a))
+    chk.require('R09.16', 5)
 
 
 def check_r09_17(repo: Repo, chk: Check) -> None:
@@ -741,3 +780,28 @@ def check_r09_17(repo: Repo, chk: Check) -> None:
             'a reST / google / numpy docstring that consists of one section (`Usage` / `=====` / a paragraph) renders the paragraph only: docutils promotes the lone title to the '
             'document title, html4css1 puts it into the page head parts, node2html returns visitor.body - the words of the title are lost, without a warning'), tr.loc)
     chk.require('R09.17', 1)
+
+
+def check_r09_18(repo: Repo, chk: Check) -> None:
+    # the HTML that docutils' html4css1 writer produces is re-read as XML (stanutils.html2stan -> twisted XMLString).  XML knows five named entities; html4css1
+    # spells U+00A0 as `&nbsp;` (special_characters[0xa0]) and protects runs of blanks in a literal with `&nbsp;` too.  Unless the translator takes that
+    # spelling back (its own special_characters / encode) or the re-parse declares the entity, every docstring that contains a NO-BREAK SPACE - ordinary
+    # French typography, text pasted from a web page - fails to render and is shown raw, markup included
+    tr = repo.classes.get('pydoctor.node2stan.HTMLTranslator')
+    h2s = repo.funcs.get('pydoctor.stanutils.html2stan')
+    if tr is None or h2s is None:
+        raise AnalysisError('R09.18: node2stan.HTMLTranslator / stanutils.html2stan not found')
+    own_table = any(isinstance(n, (ast.Assign, ast.AnnAssign)) and any(isinstance(t, ast.Name) and t.id == 'special_characters'
+                                                                        for t in (n.targets if isinstance(n, ast.Assign) else [n.target]))
+                    and 'nbsp' not in norm(n) for n in tr.node.body)
+    own_encode = 'encode' in tr.methods and not any(isinstance(x, ast.Constant) and isinstance(x.value, str) and 'nbsp' in x.value for x in tr.methods['encode'].walk())
+    declared = any(isinstance(x, ast.Constant) and isinstance(x.value, (str, bytes)) and (b'ENTITY nbsp' in x.value if isinstance(x.value, bytes) else 'ENTITY nbsp' in x.value)
+                   for x in h2s.walk())
+    ok = own_table or own_encode or declared
+    chk.ob('R09.18', 'pydoctor.node2stan.HTMLTranslator :: no character of the text is spelled as an entity the XML re-parse rejects', ok,
+           'the translator has its own special_characters' if own_table else 'the translator has its own encode()' if own_encode else
+           'html2stan declares the entity' if declared else
+           'the inherited html4css1 table maps U+00A0 to `&nbsp;`, html2stan wraps the fragment in a bare <div> and XMLString knows no such entity: a well-formed docstring '
+           'with a no-break space (`Prix\u00a0: 10\u00a0EUR`, in any markup) is reported as "bad docstring: SAXParseException ... undefined entity" and shown as plain text with '
+           'its markup left in; a literal with two blanks (``a  b``) and a block-quote attribution (&mdash;) fail the same way', tr.loc)
+    chk.require('R09.18', 1)
